@@ -36,7 +36,7 @@ PROPS = {
     "C11": dict(quick_checks=4000, thorough_checks=15000),
     "C12": dict(quick_checks=2500, thorough_checks=15000),
     "C13": dict(quick_checks=3000, thorough_checks=20000, enum=True),
-    "C14": dict(quick_checks=3000, thorough_checks=20000, race_thorough=True),
+    "C14": dict(quick_checks=3000, thorough_checks=20000, race_thorough=True, enum=True),
     "C15": dict(quick_checks=2500, thorough_checks=15000, race_thorough=True),
     "C16": dict(level="fault_enumeration", quick_checks=1500, thorough_checks=10000, enum=True),
     "C17": dict(quick_checks=1500, thorough_checks=10000),
